@@ -407,7 +407,8 @@ static bool parse_int64_from_buffer(const char* start, const char* end, int64_t*
         }
     }
 
-    *out = negative ? -(int64_t) value : (int64_t) value;
+    /* value may be 2^63 when negative: negate in unsigned arithmetic (no signed overflow) */
+    *out = negative ? (int64_t) (0 - value) : (int64_t) value;
     return true;
 }
 
